@@ -69,6 +69,9 @@ def run(ck):
     from . import c15
     cuts, impls, LS, RS = c15.collect_cuts(RuleView(ck, {}))
     c15.per_side_cuts(ck, "C04.10", cuts, impls, LS, RS)
+    ck.clause("C04.14", "the Confidence column of the XMAP carries the score with two decimals (as C02.1 / C18.7)")
+    from .c02 import confidence_column, extract_writer
+    confidence_column(ck, "C04.14", extract_writer(ck))
     ck.clause("C04.13", "label numbers of second-pass fragments refer to the labels of the whole query on both strands (as C02.5): a "
                         "fragment numbered from its own start is reported against labels it was not scored on, and low-numbered labels "
                         "are counted twice in a joined record")
@@ -161,7 +164,7 @@ def wiring(ck):
             if t[0] == "attr" and t[1] == args_t:
                 continue
             touched = [x[2] for x in T.subterms(t) if x[0] == "attr" and x[1] == args_t]
-            if touched and t[0] not in ("new", "app") and not any(y[0] in ("new",) for y in T.subterms(t)):
+            if touched and t[0] not in ("new", "app"):
                 ck.violation("C04.1", f"factory:{cls.name}.{pname}:altered", where(factory, node),
                              f"parameter {pname} of {cls.name} does not receive the command-line value itself but an expression over "
                              f"{sorted(set(touched))}: the component then works with a setting the user did not give",
